@@ -268,6 +268,8 @@ def run(ck, tier):
     _mp.run(ck, F, 'C09')
     from . import accum as _acc2
     _acc2.run2(ck, F, 'C09')
+    from . import relations as _rel
+    _rel.run(ck, F, 'C09')
     from . import accum as _acc
     _acc.run(ck, F, 'C09')
     run_recursion(ck, F)
